@@ -212,6 +212,17 @@ class RT:
         raise PathAbort()
 
     # ---- comprehensions / literals -------------------------------------------------------
+    def comp2(self, kind, fn, it1, it2fn):
+        """[fn(a)(b) for a in it1 for b in it2fn(a)]"""
+        from .heap import LazyProduct
+        if isinstance(it1, (SymSeq, SymRange, SymMap, LazyMap)):
+            return LazyProduct(kind, fn, it1, it2fn)
+        xs = list(it1)
+        inner = [it2fn(a) for a in xs]
+        if any(isinstance(b, (SymSeq, SymRange, SymMap, LazyMap)) for b in inner):
+            return LazyProduct(kind, fn, xs, it2fn)
+        return [fn(a)(b) for a, bs in zip(xs, inner) for b in bs]
+
     def comp(self, kind, fn, it, flt):
         if isinstance(it, SymMap):
             it = it.enum()
